@@ -344,6 +344,21 @@ KERNELS = [
          record_get=("self._thefittest.get().values()", "TheFittest_get",
                      ["_thefittest._genotype", "_thefittest._phenotype", "_thefittest._fitness", "_thefittest._no_update_counter"]),
          append_self_return=True),
+    # ---- find_pbest_id: the float product p * size (truncated) is the parameter `count_raw`; the rest is code
+    dict(name="find_pbest_id", file=U, func="find_pbest_id", params=[("array", "Arr"), ("p", "Opaque")], ret="Arr",
+         uses=["argsort_k"], opaque_exprs={"np.int64(p * size)": "count_raw"}),
+    dict(name="PDPGP_get_new_individ_g", file="optimizers/_pdpgp.py", cls="PDPGP", func="_get_new_individ_g",
+         params=[("specified_selection", "Opaque"), ("specified_crossover", "Opaque"), ("specified_mutation", "Opaque")], ret="Mat",
+         self_attrs={"_fitness_scale_i": ("fitness_scale", "Arr"), "_fitness_rank_i": ("fitness_rank", "Arr"), "_population_g_i": ("population", "Arr"),
+                     "_fitness_i": ("fitness_i", "Arr"), "_max_level": ("max_level", "Int"), "_uniset": ("uniset", "Int")},
+         opaque_lookups=["self._selection_pool[specified_selection]", "self._crossover_pool[specified_crossover]", "self._mutation_pool[specified_mutation]"],
+         opaque_unpack={"selection_func": None, "crossover_func": None, "mutation_func": None,
+                        "tour_size": "Int", "quantity": "Int", "proba": "Int", "is_constant_rate": "Bool"},
+         opaque_if={"is_constant_rate": ("proba", "proba_eff", "Int")}, self_append=["_previous_fitness_i"], append_row_of_int=True,
+         ext_fn={"selection_func": ("selFn", ["fitness", "rank", "tour_size", "quantity"], ["Arr", "Arr", "Int", "Int"]),
+                 "crossover_func": ("crossFn", ["individs", "fitness", "rank", "max_level"], ["Arr", "Arr", "Arr", "Int"], "Int"),
+                 "mutation_func": ("mutFn", ["tree", "uniset", "proba", "max_level"], ["Int", "Int", "Int", "Int"], "Int"),
+                 "self._choice_parent": ("parentFn", ["fitness_i_selected"], ["Arr"], "Int")}),
     dict(name="tournament_selection", file="utils/selections.py", func="tournament_selection",
          params=[("fitness", "Arr"), ("rank", "Arr"), ("tour_size", "Int"), ("quantity", "Int")], ret="Arr",
          ext_fn={"random_sample": ("sampler", ["range_size", "quantity", "replace"])}),
@@ -453,6 +468,8 @@ class Tr:
 
     # ---- types
     def ty(self, e) -> str:
+        if self.cfg.get("opaque_exprs") and not isinstance(e, (ast.Name, ast.Constant)) and ast.unparse(e) in self.cfg["opaque_exprs"]:
+            return "Int"
         if isinstance(e, ast.Constant):
             return "Bool" if isinstance(e.value, bool) else "Int"
         if isinstance(e, ast.Name):
@@ -606,6 +623,8 @@ class Tr:
     #      Returns (lines, rewritten-expression-environment): sub-expressions are replaced by `s.tN`.
     def hoist(self, e, lines, env, guarded=False):
         """walk `e` in evaluation order; effectful sub-expressions get a temporary"""
+        if self.cfg.get("opaque_exprs") and not isinstance(e, (ast.Name, ast.Constant)) and ast.unparse(e) in self.cfg["opaque_exprs"]:
+            return
         if isinstance(e, ast.BoolOp):
             self.hoist(e.values[0], lines, env, guarded)
             for v in e.values[1:]:
@@ -1013,6 +1032,8 @@ class Tr:
     def E(self, e, env) -> str:
         if id(e) in env:
             return env[id(e)]
+        if self.cfg.get("opaque_exprs") and isinstance(e, ast.AST) and not isinstance(e, (ast.Name, ast.Constant)) and ast.unparse(e) in self.cfg["opaque_exprs"]:
+            return self.cfg["opaque_exprs"][ast.unparse(e)]
         if isinstance(e, ast.Constant):
             if isinstance(e.value, bool):
                 return "true" if e.value else "false"
@@ -1204,6 +1225,8 @@ class Tr:
     # ---- out-of-range condition of evaluating `e` (a Lean Bool expression over the state)
     def oob(self, e, env) -> str:
         if id(e) in env and not isinstance(e, ast.Call):
+            return "false"
+        if self.cfg.get("opaque_exprs") and not isinstance(e, (ast.Name, ast.Constant)) and ast.unparse(e) in self.cfg["opaque_exprs"]:
             return "false"
         if isinstance(e, ast.BoolOp):
             vals = e.values
@@ -1677,7 +1700,10 @@ class Tr:
             env = self.pre([last.value], L)
             for ln in L:
                 lines.append(f"{pad}let s := {ln}")
-            lines.append(f"{pad}if s.err || s.dry then none else some ([{self.E(last.value, env)}, " + ", ".join(f"s.app{a_}" for a_ in self.self_append) + "])")
+            val = self.E(last.value, env)
+            if self.cfg.get("append_row_of_int"):
+                val = f"[{val}]"
+            lines.append(f"{pad}if s.err || s.dry then none else some ([{val}, " + ", ".join(f"s.app{a_}" for a_ in self.self_append) + "])")
         elif isinstance(last, ast.Return) and self.cfg.get("returns_log"):
             lines.append(f"{pad}if s.err || s.dry then none else some (s.log)")
         elif isinstance(last, ast.Return) and self.cfg["ret"] == "Tree":
@@ -1753,6 +1779,7 @@ class Tr:
         extra += "".join(f" ({v[1]} : {LTY[v[2]] if len(v) > 2 else 'List Int'})" for v in self.opaque_if.values())
         extra += "".join(f" ({n}_p : {LTY[t]})" for n, t in self.opaque_unpack.items() if t is not None)
         extra += "".join(f" ({v} : Int)" for d in self.self_items.values() for v in d.values())
+        extra += "".join(f" ({v} : Int)" for v in cfg.get("opaque_exprs", {}).values())
         extra += "".join(f" ({v} : Bool)" for v in self.not_none.values())
         extra += "".join(f" ({par} : List Int)" for par, _ in self.bool_stream.values())
         imports = "".join(f"import TFV.Generated.Src.{u}\n" for u in list(self.uses) + list(self.method_uses.values()) + list(self.tree_methods.values()) + list(self.tree_calls.values())
